@@ -296,8 +296,18 @@ func (l *Lexer) NextToken() token.Token {
 		}
 
 	case rune(0):
-		tok.Literal = ""
-		tok.Type = token.EOF
+		if l.position < len(l.characters) {
+
+			// A literal NUL character in the middle of our
+			// input is not the end of the input.
+			tok.Type = token.ILLEGAL
+			tok.Literal = "invalid character NUL"
+			tok.Column = l.column
+			tok.Line = l.line
+		} else {
+			tok.Literal = ""
+			tok.Type = token.EOF
+		}
 
 	default:
 		if isDigit(l.ch) {
